@@ -103,28 +103,37 @@ def identity_oracle(b):
             kappa = (s * s * sp * sp) / D if D > 0 else float("inf")
             if D <= 1e3 * TINY or kappa > 1e6:
                 continue
-            gamma = sp * sp / eps
             if not beta > 0:
                 bad.append((plane + ":beta<=0", beta))
             if not eps >= 0:
                 bad.append((plane + ":eps<0", eps))
+            if not eps > 0:          # a non-degenerate beam (D > 0) reported with emittance 0: nothing further can be evaluated
+                bad.append((plane + ":eps==0 for a non-degenerate beam", eps))
+                continue
+            gamma = sp * sp / eps
             dev = abs(beta * gamma - alpha * alpha - 1.0)
-            if dev > 1e-12 * (1 + kappa) * 10:
+            if not dev <= 1e-12 * (1 + kappa) * 10:
                 bad.append((plane + ":beta*gamma-alpha^2-1", dev))
             g, bt = float(torch.atleast_1d(b.relativistic_gamma).flatten()[i % torch.atleast_1d(b.relativistic_gamma).numel()]), \
                 float(torch.atleast_1d(b.relativistic_beta).flatten()[i % torch.atleast_1d(b.relativistic_beta).numel()])
             ne = float(o["neps"].flatten()[i])
-            if abs(ne - eps * bt * g) > 1e-12 * abs(ne):
+            if not abs(ne - eps * bt * g) <= 1e-12 * abs(ne):
                 bad.append((plane + ":normalized_emittance", ne))
     return bad
 
 
 # ---------------------------------------------------------------- correspondence goals
+NONFINITE_OBS = []    # observations that are NaN/inf (never written as a Coq literal; reported as failing inputs in main)
+
+
 def coq_smp(l):
     return coq_list([f"({dyadic(a)}, {dyadic(b)}, {dyadic(w)})" for a, b, w in l])
 
 
 def add_goal(goals, meta, model, observed, rel, tactic, info):
+    if not (math.isfinite(observed) and math.isfinite(rel)):
+        NONFINITE_OBS.append(dict(info, observed=repr(observed), model=model[:60]))
+        return
     tol = rel * abs(observed) + 1e-300
     goals.append((f"Rabs ({model} - {dyadic(observed)}) <= {dyadic(tol)}", tactic))
     meta.append(dict(info, observed=observed, model=model[:60]))
@@ -272,6 +281,10 @@ def wstats_oracle(run, n, impl_bad):
         pb3 = build_pb([[p[0] + a] + p[1:] for p in ps], w)
         pb4 = build_pb([[p[0] * k] + p[1:] for p in ps], w)
         s = float(pb.sigma_x)
+        if not (math.isfinite(s) and s > 1e-30 and math.isfinite(float(pb.mu_x))):
+            impl_bad.append({"kind": "wstats", "particles": ps, "survival": w, "perm": perm,
+                             "diffs": [("sigma_x / mu_x of distinct particles not a positive number", s, float(pb.mu_x))]})
+            continue
         off = 1 + ((abs(float(pb.mu_x)) + a) / s) ** 2
         tol = 1e-12 * off
         diffs = []
@@ -324,17 +337,286 @@ def transport_oracle(run, n, impl_bad):
             kappa = 1 + A * A + float(to["alpha"]) ** 2
             scaleB = a_ * a_ * B + abs(2 * a_ * b_ * A) + b_ * b_ * G
             scaleA = abs(a_ * c_ * B) + abs((a_ * d_ + b_ * c_) * A) + abs(b_ * d_ * G) + 1
-            if abs(a_ * d_ - b_ * c_ - 1) > 1e-9:
+            if not abs(a_ * d_ - b_ * c_ - 1) <= 1e-9:
                 diffs.append((plane + ":det", a_ * d_ - b_ * c_))
-            if abs(float(to["beta"]) - wantB) > 1e-9 * kappa * scaleB:
+            if not abs(float(to["beta"]) - wantB) <= 1e-9 * kappa * scaleB:
                 diffs.append((plane + ":beta", float(to["beta"]), wantB))
-            if abs(float(to["alpha"]) - wantA) > 1e-9 * kappa * scaleA:
+            if not abs(float(to["alpha"]) - wantA) <= 1e-9 * kappa * scaleA:
                 diffs.append((plane + ":alpha", float(to["alpha"]), wantA))
-            if abs(float(to["eps"]) - float(ti["eps"])) > 1e-9 * kappa * scaleB / B * float(ti["eps"]):
+            if not abs(float(to["eps"]) - float(ti["eps"])) <= 1e-9 * kappa * scaleB / B * float(ti["eps"]):
                 diffs.append((plane + ":emittance", float(to["eps"]), float(ti["eps"])))
         if diffs:
             impl_bad.append({"kind": "transport", "element": kind, "length": L, "k1": float(getattr(el, "k1", T(0.0))), "cov": b._cov.tolist(),
                              "mu": b._mu.tolist(), "energy": E, "diffs": diffs})
+
+
+# ---------------------------------------------------------------- degenerate (zero-emittance) beams: the clauses claimed for EVERY beam
+DTYPES = {"float32": torch.float32, "float64": torch.float64}
+
+
+def flat(t):
+    return [float(v) for v in torch.atleast_1d(t.detach()).flatten()]
+
+
+def build_degenerate(spec):
+    """valid beams whose geometric emittance is zero (sigma_x^2 sigma_px^2 - sigma_xpx^2 = 0 up to rounding, of either sign)"""
+    import cheetah
+    dt = DTYPES[spec["dtype"]]
+
+    def t(v):
+        return torch.tensor(v, dtype=dt)
+    mk = spec["maker"]
+    if mk in ("linspaced", "parameter_linspaced"):
+        kw = dict(sigma_x=t(spec["sigma_x"]), sigma_px=t(spec["sigma_px"]), sigma_y=t(spec["sigma_y"]), sigma_py=t(spec["sigma_py"]),
+                  mu_x=t(spec["mu_x"]), mu_px=t(spec["mu_px"]), energy=t(1e8))
+        if mk == "linspaced":
+            return cheetah.ParticleBeam.make_linspaced(num_particles=spec["n"], **kw, dtype=dt)
+        return cheetah.ParameterBeam.from_parameters(**kw, dtype=dt).linspaced(spec["n"])
+    if mk == "two_survivors":
+        n = len(spec["particles"])
+        return cheetah.ParticleBeam(t(spec["particles"]), t(1e8), particle_charges=t([1e-12] * n), survival_probabilities=t(spec["survival"]), dtype=dt)
+    if mk == "param_corr":
+        sx, sp, sy, spy = t(spec["sigma_x"]), t(spec["sigma_px"]), t(spec["sigma_y"]), t(spec["sigma_py"])
+        b = cheetah.ParameterBeam.from_parameters(sigma_x=sx, sigma_px=sp, cor_x=t(spec["sign_x"]) * sx * sp, sigma_y=sy, sigma_py=spy,
+                                                  cor_y=t(spec["sign_y"]) * sy * spy, energy=t(1e8), dtype=dt)
+        if spec.get("lattice"):
+            l1, lq, k1, l2 = spec["lattice"]
+            seg = cheetah.Segment([cheetah.Drift(length=t(l1), dtype=dt), cheetah.Quadrupole(length=t(lq), k1=t(k1), dtype=dt),
+                                   cheetah.Drift(length=t(l2), dtype=dt)])
+            b = seg.track(b)
+        return b
+    raise ValueError(mk)
+
+
+def every_beam_claims(b):
+    """C17 clauses that hold for EVERY beam with a non-zero extent, clamped (zero-emittance) ones included: emittance, beta and alpha are
+    numbers, emittance >= 0, beta > 0.  (beta*gamma - alpha^2 = 1 is NOT claimed for clamped beams: F19.)  An exception raised by a getter
+    is an observation.  Returns list of (what, entry, value)."""
+    bad = []
+    for plane in ("x", "y"):
+        try:
+            o = {k: flat(v) for k, v in twiss_obs(b, plane).items() if k in ("s", "sp", "c", "eps", "beta", "alpha")}
+        except Exception as ex:
+            bad.append((plane + ":getter raised", -1, repr(ex)[:200]))
+            continue
+        for i in range(max(len(v) for v in o.values())):
+            s, sp, c, eps, beta, alpha = (o[k][i % len(o[k])] for k in ("s", "sp", "c", "eps", "beta", "alpha"))
+            if not all(map(math.isfinite, (s, sp, c))):
+                bad.append((plane + ":second moments not finite", i, [s, sp, c]))
+                continue
+            if not s > 0:
+                continue                      # a beam without extent: beta > 0 is not claimed
+            if not (math.isfinite(eps) and eps >= 0):
+                bad.append((plane + ":emittance is not a number >= 0", i, eps))
+            if not (math.isfinite(beta) and beta > 0):
+                bad.append((plane + ":beta is not a number > 0", i, beta))
+            if not math.isfinite(alpha):
+                bad.append((plane + ":alpha is not a number", i, alpha))
+    return bad
+
+
+def degenerate_entry(spec, i):
+    """the i-th entry of a vectorised degenerate spec as a spec of its own"""
+    s = dict(spec)
+    if spec["maker"] == "two_survivors":
+        s["survival"] = spec["survival"][i]
+        return s
+    for k in ("sigma_x", "sigma_px", "sigma_y", "sigma_py", "sign_x", "sign_y"):
+        if isinstance(spec.get(k), list):
+            s[k] = spec[k][i]
+    return s
+
+
+def gen_degenerate(rng):
+    dtype = rng.choice(["float32", "float32", "float64"])
+    B = rng.choice([4, 6, 8])
+    sig = lambda pool: [rng.choice(pool) * rng.uniform(0.5, 2.0) for _ in range(B)]  # noqa: E731
+    mk = rng.choice(["linspaced", "parameter_linspaced", "two_survivors", "two_survivors", "param_corr", "param_corr", "param_corr"])
+    if mk in ("linspaced", "parameter_linspaced"):
+        return {"maker": mk, "dtype": dtype, "n": rng.choice([2, 3, 5, 11, 20]), "sigma_x": sig([1e-4, 2.3e-5, 9e-6, 7.7e-4]),
+                "sigma_px": sig([1e-5, 7e-6, 6.3e-5, 2e-6]), "sigma_y": sig([1e-4, 3e-4, 5.1e-5]), "sigma_py": sig([1e-5, 2e-5, 4e-6]),
+                "mu_x": rng.choice([0.0, 1e-4]), "mu_px": rng.choice([0.0, -2e-5])}
+    if mk == "two_survivors":
+        ps, _w, _pat = gen_particles(rng)
+        n = len(ps)
+        surv = []
+        for _ in range(B):
+            row = [0.0] * n
+            i, j = rng.sample(range(n), 2)
+            row[i], row[j] = 1.0, rng.choice([1.0, 1.0, 0.5])
+            surv.append(row)
+        if dtype == "float32":
+            ps = torch.tensor(ps, dtype=torch.float32).double().tolist()
+        return {"maker": mk, "dtype": dtype, "particles": ps, "survival": surv}
+    lat = None
+    if rng.random() < 0.6:
+        lat = [rng.choice([0.7, 0.3, 1.0]), rng.choice([0.2, 0.1]), rng.choice([4.2, -3.0, 1.5]), rng.choice([1.3, 0.5])]
+    return {"maker": mk, "dtype": dtype, "sigma_x": sig([1e-4, 2.3e-5, 9e-6, 7.7e-4]), "sigma_px": sig([1e-5, 7e-6, 6.3e-5, 2e-6]),
+            "sigma_y": sig([1e-4, 3e-4, 5.1e-5]), "sigma_py": sig([1e-5, 2e-5, 4e-6]),
+            "sign_x": [rng.choice([1.0, -1.0]) for _ in range(B)], "sign_y": [rng.choice([1.0, -1.0]) for _ in range(B)], "lattice": lat}
+
+
+def check_degenerate(spec):
+    try:
+        b = build_degenerate(spec)
+    except Exception as ex:
+        return [("constructing / tracking a valid degenerate beam raised", -1, repr(ex)[:200])]
+    return every_beam_claims(b)
+
+
+def degenerate_oracle(run, n, impl_bad):
+    for _ in range(n):
+        spec = gen_degenerate(run.rng)
+        run.add_case(["degenerate", spec], True)
+        run.count("degenerate_" + spec["maker"] + "_" + spec["dtype"] + ("_transported" if spec.get("lattice") else ""))
+        bad = check_degenerate(spec)
+        if not bad:
+            continue
+        # shrink: the single failing entry of the batch, if it fails on its own as well
+        for what, i, _v in bad:
+            if i >= 0:
+                one = degenerate_entry(spec, i)
+                b1 = check_degenerate(one)
+                if b1:
+                    spec, bad = one, b1
+                    break
+        impl_bad.append({"kind": "degenerate", "spec": spec, "diffs": bad,
+                         "claim": "for every beam (zero-emittance beams included) emittance, beta, alpha are numbers, emittance >= 0, beta > 0"})
+
+
+# ---------------------------------------------------------------- statistics of beams far off axis (|mean| >> sigma), float32 and float64
+def exact_wstats(xs, ps, w):
+    """exact rational weighted statistics of the stored coordinates: (mean_x, mean_p, var_x, var_p, cov, W, correction)"""
+    from fractions import Fraction as Fr
+    xs, ps, w = [Fr(v) for v in xs], [Fr(v) for v in ps], [Fr(v) for v in w]
+    W = sum(w)
+    cf = W - sum(v * v for v in w) / W
+    mx, mp = sum(a * b for a, b in zip(xs, w)) / W, sum(a * b for a, b in zip(ps, w)) / W
+    vx = sum(c * (a - mx) ** 2 for a, c in zip(xs, w)) / cf
+    vp = sum(c * (a - mp) ** 2 for a, c in zip(ps, w)) / cf
+    cv = sum(c * (a - mx) * (b - mp) for a, b, c in zip(xs, ps, w)) / cf
+    return mx, mp, vx, vp, cv, W, cf
+
+
+def offaxis_tolerances(dtype, xs, ps, w, ex):
+    """Rounding-error bounds of the TWO-PASS formulas evaluated in `dtype` with plain recursive summation of n terms:
+    u = eps (n/2 + 4);  |mean^ - mean| <= u max|x|;  sum w (x - mean^)^2 = sum w (x - mean)^2 + W (mean^ - mean)^2 (the cross term vanishes),
+    so var^/var - 1 <= 3u + (W/c)(u max|x| / sigma)^2 -- second order in the offset/size ratio; likewise for the covariance."""
+    mx, mp, vx, vp, cv, W, cf = ex
+    eps = float(torch.finfo(DTYPES[dtype]).eps)
+    n = len(xs)
+    u = eps * (n / 2 + 4)
+    sx, sp = math.sqrt(float(vx)), math.sqrt(float(vp))
+    xm, pm = max(abs(v) for v in xs), max(abs(v) for v in ps)
+    q = float(W / cf)
+    rx = 3 * u + q * (u * xm / sx) ** 2
+    rp = 3 * u + q * (u * pm / sp) ** 2
+    rc = 3 * u + q * (u * xm / sx) * (u * pm / sp)
+    return dict(u=u, sx=sx, sp=sp, mu=u * xm, sigma_x=sx * rx, sigma_px=sp * rp, cov=sx * sp * rc, rx=rx, rp=rp, rc=rc, q=q)
+
+
+def build_offaxis(spec, shifted):
+    import cheetah
+    dt = DTYPES[spec["dtype"]]
+    n = len(spec["x"])
+    part = torch.zeros(n, 7, dtype=dt)
+    part[:, 0], part[:, 1] = torch.tensor(spec["x"], dtype=dt), torch.tensor(spec["px"], dtype=dt)
+    part[:, 2], part[:, 3] = torch.tensor(spec["px"], dtype=dt) * 3, torch.tensor(spec["x"], dtype=dt) * 0.5
+    part[:, 6] = 1.0
+    b = cheetah.ParticleBeam(part, torch.tensor(1e8, dtype=dt), particle_charges=torch.full((n,), 1e-12, dtype=dt),
+                             survival_probabilities=torch.tensor(spec["survival"], dtype=dt), dtype=dt)
+    if shifted:
+        b.x = b.x + torch.tensor(spec["shift"], dtype=dt)
+    return b
+
+
+def check_offaxis(spec):
+    """(1) every getter of the shifted beam agrees with the exact statistics of the coordinates it stores, within the rounding bound of the
+    two-pass formulas; (2) translation: sigma_x, sigma_xpx of the shifted beam equal those of the unshifted one (plus the exactly measured
+    effect of rounding the shifted coordinates to the dtype), mu_x moves by the shift."""
+    from fractions import Fraction as Fr
+    diffs = []
+    try:
+        b0, b1 = build_offaxis(spec, False), build_offaxis(spec, True)
+        obs = []
+        for b in (b0, b1):
+            obs.append({k: float(getattr(b, k)) for k in ("mu_x", "sigma_x", "sigma_px", "sigma_xpx", "emittance_x", "beta_x", "alpha_x")})
+        stored = [(b.x.double().tolist(), b.px.double().tolist()) for b in (b0, b1)]
+    except Exception as ex:
+        return [("exception", repr(ex)[:200])], None
+    w = spec["survival"]
+    exs = [exact_wstats(xs, ps, w) for xs, ps in stored]
+    tols = [offaxis_tolerances(spec["dtype"], xs, ps, w, ex) for (xs, ps), ex in zip(stored, exs)]
+    eps = float(torch.finfo(DTYPES[spec["dtype"]]).eps)
+
+    def close(name, got, want, tol):
+        if not abs(got - want) <= tol:
+            diffs.append((name, got, want, tol))
+    for tag, o, ex, t in (("unshifted:", obs[0], exs[0], tols[0]), ("shifted:", obs[1], exs[1], tols[1])):
+        mx, mp, vx, vp, cv, W, cf = ex
+        close(tag + "mu_x vs exact weighted mean", o["mu_x"], float(mx), t["mu"])
+        close(tag + "sigma_x vs exact weighted std", o["sigma_x"], t["sx"], t["sigma_x"])
+        close(tag + "sigma_px vs exact weighted std", o["sigma_px"], t["sp"], t["sigma_px"])
+        close(tag + "sigma_xpx vs exact weighted covariance", o["sigma_xpx"], float(cv), t["cov"])
+        D = vx * vp - cv * cv
+        kappa = float(vx * vp / D) if D > 0 else float("inf")
+        rho = 2 * t["rx"] + 2 * t["rp"] + 2 * t["rc"] + 8 * eps      # relative error of sx^2 sp^2 - c^2 w.r.t. sx^2 sp^2
+        if kappa * rho < 0.05:
+            e = math.sqrt(float(D))
+            close(tag + "emittance_x vs exact", o["emittance_x"], e, 1.5 * e * (kappa * rho + 2 * eps))
+            close(tag + "beta_x vs exact", o["beta_x"], float(vx) / e, 1.5 * float(vx) / e * (2 * t["rx"] + kappa * rho + 4 * eps))
+            close(tag + "alpha_x vs exact", o["alpha_x"], -float(cv) / e, 1.5 * (t["sx"] * t["sp"] / e) * (t["rc"] + kappa * rho + 4 * eps))
+    # translation invariance proper; delta_i = stored shifted coordinate - (stored coordinate + shift), measured exactly
+    a = Fr(float(torch.tensor(spec["shift"], dtype=DTYPES[spec["dtype"]])))
+    dmax = float(max(abs(Fr(s1) - (Fr(s0) + a)) for s0, s1 in zip(stored[0][0], stored[1][0])))
+    q = math.sqrt(tols[0]["q"])
+    close("shift:sigma_x unchanged", obs[1]["sigma_x"], obs[0]["sigma_x"], tols[0]["sigma_x"] + tols[1]["sigma_x"] + q * dmax)
+    close("shift:sigma_xpx unchanged", obs[1]["sigma_xpx"], obs[0]["sigma_xpx"], tols[0]["cov"] + tols[1]["cov"] + q * dmax * tols[0]["sp"])
+    close("shift:mu_x moves by the shift", obs[1]["mu_x"], obs[0]["mu_x"] + float(a), tols[0]["mu"] + tols[1]["mu"] + dmax + eps * abs(float(a)))
+    info = {"offset_over_sigma": abs(float(exs[1][0])) / tols[1]["sx"], "observed": obs, "exact_shifted": {"mu_x": float(exs[1][0]), "sigma_x": tols[1]["sx"],
+            "sigma_xpx": float(exs[1][4])}}
+    return diffs, info
+
+
+def gen_offaxis(rng):
+    dtype = rng.choice(["float32", "float32", "float64"])
+    n = rng.choice([5, 20, 60, 150])
+    sx = rng.choice([6e-6, 1e-4, 1e-3]) * rng.uniform(0.5, 2.0)
+    sp = rng.choice([2e-6, 1e-5, 1e-4]) * rng.uniform(0.5, 2.0)
+    r = rng.choice([0.0, 0.5, -0.8])
+    xs, ps = [], []
+    for _ in range(n):
+        g1, g2 = rng.gauss(0, 1), rng.gauss(0, 1)
+        xs.append(sx * g1)
+        ps.append(sp * (r * g1 + math.sqrt(1 - r * r) * g2))
+    dt = DTYPES[dtype]
+    xs, ps = torch.tensor(xs, dtype=dt).double().tolist(), torch.tensor(ps, dtype=dt).double().tolist()
+    pattern = rng.choice(["ones", "ones", "mixed", "lost"])
+    if pattern == "ones":
+        w = [1.0] * n
+    elif pattern == "mixed":
+        w = [rng.choice([1.0, 0.5, 0.25, 0.75]) for _ in range(n)]
+    else:
+        w = [rng.choice([1.0, 1.0, 0.0, 0.5]) for _ in range(n)]
+        w[0], w[1], w[2] = 1.0, 1.0, 0.5
+    ratio = rng.choice([30.0, 1e3, 1e3, 3e3, 1e4]) if dtype == "float32" else rng.choice([1e3, 1e5, 1e6, 1e7])
+    shift = rng.choice([1.0, -1.0]) * ratio * sx * rng.uniform(0.7, 1.4)
+    return {"dtype": dtype, "x": xs, "px": ps, "survival": w, "shift": shift, "ratio": ratio, "weights": pattern}
+
+
+def offaxis_oracle(run, n, impl_bad):
+    found = []
+    for _ in range(n):
+        spec = gen_offaxis(run.rng)
+        run.add_case(["offaxis", spec], True)
+        run.count("offaxis_%s_ratio_%g" % (spec["dtype"], spec["ratio"]))
+        run.count("offaxis_weights_" + spec["weights"])
+        diffs, info = check_offaxis(spec)
+        if diffs:
+            found.append({"kind": "offaxis_statistics", "spec": spec, "diffs": diffs, "info": info,
+                          "claim": "weighted statistics translate with the coordinates and equal the exact weighted sample statistics of the stored "
+                                   "coordinates up to the rounding error of the two-pass formulas in the beam's dtype"})
+    impl_bad.extend(sorted(found, key=lambda f: len(f["spec"]["x"])))       # smallest failing beam first
 
 
 def degenerate_note(run):
@@ -344,8 +626,10 @@ def degenerate_note(run):
     cov[0, 0], cov[0, 1], cov[1, 0], cov[1, 1] = 1e-6, 1e-6, 1e-6, 1e-6
     cov[2, 2], cov[3, 3] = 1e-8, 1e-8
     b = cheetah.ParameterBeam(T([0, 0, 0, 0, 0, 0, 1.0]), cov, T(1e8), dtype=DT)
-    g = float(b.sigma_px) ** 2 / float(b.emittance_x)
-    val = float(b.beta_x) * g - float(b.alpha_x) ** 2
+    try:
+        val = float(b.beta_x * (b.sigma_px ** 2 / b.emittance_x) - b.alpha_x ** 2)     # tensor arithmetic: inf/nan instead of OverflowError
+    except Exception as ex:
+        val = "exception " + repr(ex)[:120]
     run.cov["degenerate_beam_identity_value"] = val
     run.notes.append(F19_NOTE + f"; observed beta*gamma-alpha^2 = {val!r} for a perfectly correlated ParameterBeam")
 
@@ -358,7 +642,9 @@ def main(tier, replay=None):
                        "ParameterBeams) and 3-6 particle sets with survival-weight patterns (all 1 / fractional / lost): Twiss getters, sigma/mu getters and "
                        "from_twiss covariance entries of the real code vs the Coq model via interval (tolerance 1e-12 x condition number of D); plus "
                        "implementation-only oracles: identities, from_twiss round trip, permutation/shift/scale/ones, transport through Drift/Quadrupole, "
-                       "ParticleBeam.from_twiss within 5 sigma. Distinct by content.")
+                       "ParticleBeam.from_twiss within 5 sigma; zero-emittance (clamped) beams of all constructors in float32/float64 for the clauses claimed for every "
+                       "beam (numbers, emittance >= 0, beta > 0); float32/float64 particle beams 30..1e7 sigma off axis vs exact rational statistics. "
+                       "Distinct by content.")
     if replay:
         return do_replay(run, replay)
     proof_ok = run.proof_stage()
@@ -370,28 +656,54 @@ def main(tier, replay=None):
         run.proof_problem = "coq build of Beam/TwCorr.v failed: " + log[-1200:]
         run.notes.append(run.proof_problem)
     goals, meta, impl_bad = [], [], []
-    param_goals(run, 60 if thorough else 6, goals, meta, impl_bad)
-    part_goals(run, 60 if thorough else 6, goals, meta, impl_bad)
-    from_twiss_goals(run, 100 if thorough else 8, goals, meta, impl_bad)
-    from_twiss_statistical(run, 12 if thorough else 3, impl_bad)
-    wstats_oracle(run, 400 if thorough else 60, impl_bad)
-    transport_oracle(run, 400 if thorough else 60, impl_bad)
+    del NONFINITE_OBS[:]
+    stage_errors = []
+
+    def stage(name, fn, *args):
+        """an exception escaping a stage (raised by the implementation, or by arithmetic on a value it returned) is an observation"""
+        try:
+            fn(*args)
+        except Exception as ex:
+            import traceback
+            stage_errors.append({"kind": "exception", "stage": name, "error": repr(ex)[:300], "traceback": traceback.format_exc()[-1500:]})
+    stage("param_goals", param_goals, run, 60 if thorough else 6, goals, meta, impl_bad)
+    stage("part_goals", part_goals, run, 60 if thorough else 6, goals, meta, impl_bad)
+    stage("from_twiss_goals", from_twiss_goals, run, 100 if thorough else 8, goals, meta, impl_bad)
+    stage("from_twiss_statistical", from_twiss_statistical, run, 12 if thorough else 3, impl_bad)
+    stage("wstats_oracle", wstats_oracle, run, 400 if thorough else 60, impl_bad)
+    stage("transport_oracle", transport_oracle, run, 400 if thorough else 60, impl_bad)
+
     # identities on many more beams (oracle only)
-    for i in range(2000 if thorough else 200):
-        b, E = gen_param_beam(run.rng, run.rng.choice([None, 3]))
-        run.add_case(["identity", b._cov.tolist()], True)
-        run.count("identity_oracle_param")
-        bad = identity_oracle(b)
-        if bad:
-            impl_bad.append({"kind": "param_identity", "mu": b._mu.tolist(), "cov": b._cov.tolist(), "energy": E, "diffs": bad})
-    degenerate_note(run)
+    def more_identities():
+        for i in range(2000 if thorough else 200):
+            b, E = gen_param_beam(run.rng, run.rng.choice([None, 3]))
+            run.add_case(["identity", b._cov.tolist()], True)
+            run.count("identity_oracle_param")
+            bad = identity_oracle(b)
+            if bad:
+                impl_bad.append({"kind": "param_identity", "mu": b._mu.tolist(), "cov": b._cov.tolist(), "energy": E, "diffs": bad})
+    stage("identity_oracle", more_identities)
+    # (run after the older stages so that those see the same random stream as before)
+    stage("degenerate_oracle", degenerate_oracle, run, 400 if thorough else 40, impl_bad)
+    stage("offaxis_oracle", offaxis_oracle, run, 400 if thorough else 40, impl_bad)
+    stage("degenerate_note", degenerate_note, run)
     failing, errs = common.run_real_goals(PID, "twiss", PRE, goals, shard=10)
     run.cov["traces_validated_against_impl"] += len(goals)
     run.cov["tested_only"] = ["ParticleBeam.from_twiss agrees with the requested Twiss parameters statistically (5 sigma of the sampling error, N=20000)",
                               "Twiss transport of real Drift/Quadrupole elements (the 2x2 blocks come from the code; the law itself is proved)",
-                              "permutation/shift/scale/ones of the ParticleBeam getters in float64 (the real-number statements are proved)"]
+                              "permutation/shift/scale/ones of the ParticleBeam getters in float64 (the real-number statements are proved)",
+                              "zero-emittance beams (make_linspaced / linspaced, two survivors, |correlation| = 1 ParameterBeams also after drift+quadrupole+"
+                              "drift; float32 and float64, vectorised): emittance, beta, alpha are numbers, emittance >= 0, beta > 0 (not the Twiss identity: F19)",
+                              "beams far off axis (offset 30..1e4 sigma in float32, 1e3..1e7 sigma in float64): getters vs the exact rational statistics of the "
+                              "stored coordinates and translation invariance, tolerance = rounding bound of the two-pass formulas in the dtype"]
+    if NONFINITE_OBS and not impl_bad:
+        impl_bad.append({"kind": "nonfinite_observation", "case": NONFINITE_OBS[0], "n": len(NONFINITE_OBS),
+                         "diffs": "a Twiss / moment getter returned NaN or inf for a non-degenerate beam"})
     if impl_bad:
         run.violation(dict(impl_bad[0], relation="Twiss/moment consistency (C17) on the implementation"))
+    elif stage_errors:
+        run.violation(dict(stage_errors[0], relation="the implementation (or arithmetic on a value it returned) raised while the C17 oracles ran"),
+                      no_input=True)
     elif failing:
         i = failing[0]
         run.violation({"kind": "correspondence", "broken": "Coq model (Beam/Twiss.v, Beam/WStats.v) disagrees with the implementation", "case": meta[i],
@@ -416,6 +728,10 @@ def do_replay(run, path):
         for nm, want in (("beta_x", r["beta"]), ("alpha_x", r["alpha"]), ("emittance_x", r["eps"])):
             if abs(float(getattr(b, nm)) - want) > 1e-10 * (1 + r["alpha"] ** 2) * max(abs(want), 1e-300) + (1e-12 if want == 0 else 0):
                 bad.append((nm, float(getattr(b, nm)), want))
+    elif kind == "degenerate":
+        bad = check_degenerate(r["spec"])
+    elif kind == "offaxis_statistics":
+        bad = check_offaxis(r["spec"])[0]
     else:
         print("replay: re-run the check to reproduce kind", kind)
         return 0
